@@ -22,7 +22,7 @@ def walk_pipes(pipe):
 def walk_exprs(x):
     """All expression nodes (lists starting with a tag) inside x."""
     if isinstance(x, list):
-        if x and isinstance(x[0], str) and x[0] in ("col", "c", "lit", "litc", "fn", "case", "cast", "ord", "str"):
+        if x and isinstance(x[0], str) and x[0] in ("col", "c", "lit", "litc", "fn", "case", "cast", "ord", "str", "map"):
             yield x
         for y in x:
             yield from walk_exprs(y)
@@ -335,10 +335,17 @@ def m_F39(case, backend, f):
     return any(e[0] == "case" for x in walk_pipes(case["pipe"]) for st in x["steps"] for e in step_exprs(st))
 
 
+def m_F40(case, backend, f):
+    """SQL: cum_sum without `arrange=` (documented form: order given by a preceding arrange verb)"""
+    if backend != "sqlite" or f.get("exc") != "TypeError" or "unsupported operand" not in (f.get("msg") or ""):
+        return False
+    return any(e[1] == "cum_sum" and not (len(e) > 3 and e[3].get("arrange")) for _, _, e in fns(case))
+
+
 MATCHERS = {
     "F06": m_F06, "F07": m_F07, "F09": m_F09, "F13": m_F13, "F15": m_F15, "F16": m_F16, "F19": m_F19,
     "F20": m_F20, "F21": m_F21, "F23": m_F23, "F27": m_F27, "F28": m_F28, "F29": m_F29, "F30": m_F30,
-    "F31": m_F31, "F32": m_F32, "F33": m_F33, "F37": m_F37, "F38": m_F38, "F39": m_F39,
+    "F31": m_F31, "F32": m_F32, "F33": m_F33, "F37": m_F37, "F38": m_F38, "F39": m_F39, "F40": m_F40,
 }
 
 
@@ -408,6 +415,7 @@ PROBES = {
     "F39": P([["mutate", [["v", ["fn", "max", [col("a")], {}]]]],
               ["mutate", [["w", ["case", [[["fn", "greater_than", [["col", "P@1", "v"], ["lit", 3]]], col("a")]], col("id")]]]],
               ["mutate", [["z", ["fn", "min", [["col", "P@2", "w"]], {}]]]]]),
+    "F40": P([["arrange", [["ord", col("id"), False, None]]], ["mutate", [["x", ["fn", "cum_sum", [col("a")], {}]]]]]),
     "F31": P([["join", {"id": "Q", "src": "t", "steps": [["alias", False]]},
                [["fn", "equal", [col("id"), ["col", "Q@1", "id"]]], ["fn", "equal", [col("id"), ["col", "Q@1", "id"]]]],
                "inner", None]]),
